@@ -43,6 +43,8 @@ def locate(f):
             return None, "csstok/Is/panic", ev
         if ev.get("len", 0) > 0 and ev.get("isIdent") != ev.get("oneIdent"):
             return None, "csstok/IsIdent/%s" % ("true-but-not-one-identifier-token" if ev.get("isIdent") else "false-but-one-identifier-token"), ev
+        if ev.get("intact") is False:
+            return None, "csstok/IsIdent-IsURLUnquoted/argument-memory-changed-or-answer-depends-on-capacity", ev
         return None, "csstok/IsURLUnquoted/true-but-not-one-url-token", ev
     names, los, his = o["names"], o["los"], o["his"]
     if ev.get("out") == "panic":
